@@ -28,6 +28,16 @@ void *malloc(size_t);
 #define VERIF_LLVM_ASSUME(c) __CPROVER_assert((c), "VERIF-UB: llvm.assume condition")
 #define VERIF_TRAP() do { __CPROVER_assert(0, "VERIF-UB: llvm.trap"); __CPROVER_assume(0); } while (0)
 #define VERIF_NSW(c) __CPROVER_assert((c), "VERIF-UB: nsw overflow")
+#ifdef VERIF_FIXED_INPUTS
+extern const uint64_t verif_fixed_in[];
+#define nondet_uint64() (verif_fixed_in[verif_in_n])
+#define nondet_uint32() ((uint32_t)verif_fixed_in[verif_in_n])
+#define nondet_uint8() ((uint8_t)verif_fixed_in[verif_in_n])
+static inline double verif_fixed_d(uint64_t b) { double d; memcpy(&d, &b, 8); return d; }
+static inline float verif_fixed_f(uint64_t b) { uint32_t u = (uint32_t)b; float d; memcpy(&d, &u, 4); return d; }
+#define nondet_double() verif_fixed_d(verif_fixed_in[verif_in_n])
+#define nondet_float() verif_fixed_f(verif_fixed_in[verif_in_n])
+#endif
 static inline void verif_rec(uint64_t bits) { if (verif_in_n < VERIF_MAX_IN) verif_in_bits[verif_in_n] = bits; verif_in_n++; }
 static inline double verif_nondet_f64(const void *n) { double v = nondet_double(); uint64_t b; memcpy(&b, &v, 8); verif_rec(b); return v; }
 static inline float verif_nondet_f32(const void *n) { float v = nondet_float(); uint32_t b; memcpy(&b, &v, 4); verif_rec(b); return v; }
@@ -36,6 +46,7 @@ static inline uint64_t verif_nondet_u64(const void *n) { uint64_t v = nondet_uin
 static inline uint32_t verif_nondet_bool(const void *n) { uint32_t v = nondet_uint8() & 1; verif_rec(v); return v; }
 #define verif_assume(c) __CPROVER_assume((c) != 0)
 #define verif_assert(c, label) __CPROVER_assert((c) != 0, "VERIF-OBLIGATION")
+#define VERIF_ASSERT_L(c, text) __CPROVER_assert((c) != 0, text)
 #ifdef VERIF_WITNESS
 #define verif_reach(label) __CPROVER_assert(0, "VERIF-WITNESS")
 #else
@@ -74,6 +85,7 @@ static inline uint32_t verif_nondet_bool(const void *n) { return (uint32_t)(veri
 static inline void verif_assume(uint32_t c) { if (!c) { verif_native_event("assume", 0); verif_native_end(); } }
 static inline void verif_assert(uint32_t c, const void *label) { verif_native_event("assert", c != 0); }
 static inline void verif_reach(const void *label) { verif_native_event("reach", 1); }
+#define VERIF_ASSERT_L(c, text) verif_native_event("assert", (c) != 0)
 static inline void verif_observe_u64(uint64_t v) { verif_native_event("obs", v); }
 static inline void verif_observe_f64(double v) { uint64_t b; memcpy(&b, &v, 8); verif_native_event("obs", b); }
 static inline uint32_t verif_known_region(const void *id, uint32_t c) { printf("known %s %x\n", (const char *)id, c != 0); return 0; }
@@ -89,6 +101,18 @@ static inline uint32_t verif_ctlz32(uint32_t x) { uint32_t c = 0; for (int i = 3
 static inline uint32_t verif_ctlz64(uint64_t x) { uint32_t c = 0; for (int i = 63; i >= 0 && !((x >> i) & 1); --i) ++c; return c; }
 static inline uint32_t verif_cttz32(uint32_t x) { uint32_t c = 0; for (int i = 0; i < 32 && !((x >> i) & 1); ++i) ++c; return c; }
 static inline uint32_t verif_cttz64(uint64_t x) { uint32_t c = 0; for (int i = 0; i < 64 && !((x >> i) & 1); ++i) ++c; return c; }
+
+static inline uint64_t verif_d2u(double d) { uint64_t b; memcpy(&b, &d, 8); return b; }
+#ifdef VERIF_TRACE_RECORD
+#define VERIF_TR(k, v) printf("TR %d %llx\n", k, (unsigned long long)(v))
+#elif defined(VERIF_TRACE_CHECK)
+extern const uint64_t verif_tr_expected[];
+extern const uint32_t verif_tr_ids[];
+extern uint32_t verif_tr_seq;
+#define VERIF_TR(k, v) do { __CPROVER_assert(verif_tr_ids[verif_tr_seq] == (k), "TRACE-DIVERGE control flow"); __CPROVER_assert(verif_tr_expected[verif_tr_seq] == (v), "TRACE-DIVERGE value"); verif_tr_seq++; } while (0)
+#else
+#define VERIF_TR(k, v) ((void)0)
+#endif
 
 #include "verif_libm.h"
 #endif
